@@ -370,7 +370,10 @@ def run(ctx):
         cv, detail = clv.get(n, ("missing", ""))
         key = pid.split(":", 1)[1] if pid.startswith("witness:") else "src:" + vlib.sha(src)
         kind = "same"
-        if cv != "ok":
+        if cv != "ok" and ra[0] == "nobinary":
+            kind = "generator-bug"          # the source does not build as Go either: not a valid Go program
+            ctx.broken("generator(c01)", "%s is rejected by cl (%s) and does not build as Go: %s" % (pid, detail[:200], build_out[:400]))
+        elif cv != "ok":
             kind = "xgo-compile-" + cv
             ctx.fail(key, "%s: valid Go program rejected when compiled as XGo (%s): %s" % (pid, cv, detail[:300]), {"go_source": src, "cl": detail})
         elif ra[0] == "nobinary" and rb[0] == "nobinary":
